@@ -36,7 +36,7 @@ type Obligation struct {
 }
 
 var safetyKinds = map[string]bool{"index": true, "slice": true, "divzero": true, "assert": true, "nofatal": true, "nopanic": true, "makelen": true,
-	"lock-free": true, "unlock-held": true, "lock-balance": true, "block-under-lock": true, "nil": true, "overflow": true, "guarded": true, "devirt": true}
+	"slice-alias": true, "lock-free": true, "unlock-held": true, "lock-balance": true, "block-under-lock": true, "nil": true, "overflow": true, "guarded": true, "devirt": true}
 
 func (e *Engine) oblige(fr *Frame, st *State, kind, detail string, site int, goal *Term, node ast.Node, cl *Clause, descr string) {
 	if st.Infeasible() {
